@@ -37,6 +37,20 @@ TRUSTED_EXTRA = ["harness/fakedist.py: its rendezvous / validation rules stand i
                  "2-4 spawned processes, on one case per distinct model trace in the thorough tier)"]
 EXTRA_LEAN_MODULES = ("TE.Driver.Sync",)
 
+# (T) harness/translators/syncskel.py → lean/TE/Gen/SyncSkel.lean; theorems in lean/TE/Props/C02_Skel.lean (and C15_Skel.lean).
+from ..translators import syncskel as syncskel_tr  # noqa: E402
+
+TRUSTED_EXTRA = TRUSTED_EXTRA + [
+    "harness/translators/syncskel.py (symbolic walk over the AST of the functions of toolkit.py / synclib.py that issue a collective) "
+    "producing lean/TE/Gen/SyncSkel.lean; the extracted skeleton of every toolkit entry point is executed as a program next to the real "
+    "entry point on the fake transport on every run (syncskel crosscheck: collectives per member, returned metrics / values)"]
+_SKEL_ROWS: list = []
+
+
+def translate(rep: Report):
+    _SKEL_ROWS[:] = syncskel_tr.generate(rep)
+
+
 ENTRIES = ["sync_and_compute", "get_synced_metric", "get_synced_state_dict",
            "sync_and_compute_collection", "get_synced_metric_collection", "get_synced_state_dict_collection"]
 
@@ -822,11 +836,102 @@ def gloo_validation(rep: Report, pend: list, cap_ok=30, cap_fail=8):
                                      "wall_s": round(time.time() - t0, 1)}
     rep.notes.append(f"real gloo: {nval} toolkit cases (one per distinct model trace, {len(items)} strata), {ndis} disagreements with the fake transport")
 
+# ------------------------------------------------------------------ generated skeleton vs the source
+
+
+def _skel_bags(rng: Rng, group, kinds: str):
+    """{g: Bag} with uneven shapes / lengths, equal key sets inserted in a per-member order, one idle member"""
+    keys = rng.sample(["a", "b", "c"], rng.randint(1, 3))
+    idle = rng.choice(list(group))
+    ms = {}
+    for g in group:
+        m = Bag(kinds)
+        if "a" in kinds:
+            m.acc = bag_tensor(rng, (0 if g == idle else rng.choice([1, 2, 3]),), g)
+        if "t" in kinds:
+            m.tot = torch.tensor(float(rng.randrange(16)) / 8)
+        if "l" in kinds:
+            m.items = [] if g == idle else [bag_tensor(rng, (rng.choice([0, 1, 2, 3]),), g + j) for j in range(rng.choice([1, 2]))]
+        if "d" in kinds:
+            ks = list(keys)
+            rng.shuffle(ks)
+            m.tab = {k: bag_tensor(rng, (2,), g + ord(k)) for k in ks}
+        if "n" in kinds:
+            m.cnt = rng.randrange(20)
+        if "f" in kinds:
+            m.wt = float(rng.randrange(40)) / 8
+        ms[g] = m
+    return ms
+
+
+def skel_crosscheck(rep: Report):
+    """every toolkit entry point, single and collection form, worlds of 2–4 and sub-groups, over the custom metric with every state
+    kind: the skeleton's interpreter (harness/translators/syncskel.py: `Interp`, running the EXTRACTED skeleton, not the source)
+    must issue on every member the same collectives (kind, dtype, shape, root, group) in the same order as the real entry point and
+    return the same metrics / values; plus the world-size-1 and not-initialised short cuts."""
+    rows = _SKEL_ROWS or syncskel_tr.extract()
+    it = syncskel_tr.Interp(rows)
+    rng = Rng(rep.seed * 1000003 + 202)
+    st = {"cases": 0, "compared": 0, "disagreements": 0, "untranslated": [r["name"] for r in rows if r["untranslated"]]}
+    layouts = [(2, [0, 1]), (3, [0, 1, 2]), (4, [0, 1, 2, 3]), (3, [1, 2]), (4, [0, 2, 3]), (1, [0])]
+    k = 0
+    for world, group in layouts:
+        for entry in ENTRIES:
+            for kinds in (["atldnf", "ld", "tn"] if world <= 3 else ["atldnf"]):
+                k += 1
+                single = not entry.endswith("_collection")
+                if single:
+                    ms = _skel_bags(rng, group, kinds)
+                else:
+                    m1, m2 = _skel_bags(rng, group, kinds), _skel_bags(rng, group, "tl" if k % 2 else "dn")
+                    ms = {g: {"zeta": m1[g], "alpha": m2[g]} for g in group}        # insertion order ≠ sorted order
+                cl = lambda x: clone_metric(x) if single else {n: clone_metric(m) for n, m in x.items()}    # noqa: E731
+                init = not (world == 1 and k % 2 == 0)
+                sub = list(group) != list(range(world))
+                outs, ws = [], []
+                for which in ("real", "skel"):
+                    w = World(world, initialized=init, timeout=10.0)
+                    g = w.new_group(group) if sub else None
+                    per = {r: cl(ms[r]) for r in group}
+                    if which == "real":
+                        fn = getattr(toolkit, entry)
+                        o = w.run(lambda r: fn(per[r], g), ranks=group)
+                    else:
+                        o = w.run(lambda r: it.call(entry, [per[r], g]), ranks=group)
+                    outs.append(o)
+                    ws.append(w)
+                st["cases"] += 1
+                s1, s2 = world_status([outs[0][r] for r in group]), world_status([outs[1][r] for r in group])
+                if s1 != "ok":
+                    continue
+                st["compared"] += 1
+                rep.traces += 1
+                rep.count("syncskel-crosscheck:" + entry)
+                t1, t2 = syncskel_tr.traces_of(ws[0], group), syncskel_tr.traces_of(ws[1], group)
+                msg = None
+                if s2 != "ok":
+                    msg = f"the real entry point completes, the skeleton gives {s2}: {[outs[1][r].value for r in group if not outs[1][r].ok][:1]!r}"
+                elif t1 != t2:
+                    r = next(i for i in range(len(group)) if t1[i] != t2[i])
+                    msg = f"collectives of group rank {r}: real {t1[r]}, skeleton {t2[r]}"
+                else:
+                    v1 = [render_compute(outs[0][r].value) for r in group]
+                    v2 = [render_compute(outs[1][r].value) for r in group]
+                    if v1 != v2:
+                        msg = f"results: real {v1}, skeleton {v2}"
+                if msg:
+                    st["disagreements"] += 1
+                    if st["disagreements"] <= 10:
+                        rep.broke(f"syncskel:{entry}", f"generated skeleton and source disagree (Bag({kinds}), group {list(group)} of {world}, "
+                                  f"initialised={init}): {msg}"[:700], {"kind": "syncskel", "entry": entry, "world": world, "group": list(group)})
+    rep.streams["syncskel-crosscheck"] = st
+
 # ------------------------------------------------------------------ entry points
 
 
 def run(rep: Report):
     t_end = time.time() + budget(rep.tier, 75, 700)
+    skel_crosscheck(rep)
     short_circuit_cases(rep, Rng(rep.seed * 1000003 + 2))
     stateless_cases(rep)
     collected: list = []
